@@ -33,7 +33,7 @@ LEVEL_TEXT = ("Lean theorems over a transcription of create_index: the rows part
               "to write the index too.")
 LEVEL_NOTE = ("Trusted: Lean kernel, standard axioms; numpy/zarr semantics are modelled, validated by the "
               "correspondence; the coordinate guard excludes int32 wrap-around which is modelled but not claimed exact.")
-TECHNIQUE = "Lean 4 theorems (list induction) over a transcription of create_index + differential correspondence on real zarr stores"
+TECHNIQUE = "Lean 4 theorems (list induction) over a transcription of create_index whose evaluation width is regenerated from the source (Gen.RegionIndex) and bridged + differential correspondence on real zarr stores"
 
 
 def min_int_dtype(lo, hi):
